@@ -1,6 +1,6 @@
 SPECIFICATION Spec
 CONSTANTS
-  TypeSet <- TypesExtraC
+  TypeSet <- QuickB
   TopLen = 3
   TypesOnly = FALSE
   Dump = TRUE
